@@ -11,6 +11,7 @@ import Proofs.RefactorRename
 import Proofs.RefactorRemove
 import Proofs.RefactorRemoveOutput
 import Proofs.RefactorGraphIn
+import Proofs.RefactorGraphCall
 
 namespace Props.C19
 open Martian.Refactor
@@ -204,5 +205,31 @@ top-level call), the graph has 4 nodes and the renaming changes it. -/
 example : RenInOK "S" "a" "z" exTi exProg = true ∧ RenInOK "P" "a" "z" exTi exProg = true
     ∧ (deepGraph exTi exProg).length = 4
     ∧ (deepGraph exTi exProg).map (renNodeIn "S" "a" "z") ≠ deepGraph exTi exProg := by decide
+
+/-- **rename_callable_graph** (the full form of `rename_callgraph_partial`: deep
+inlining included).  Modulo the choice of call ids (`eraseIds`: the k-th call of
+a pipeline is called `#k`, references point to positions — renaming a callable
+may turn `call X` into `call Y` or into `call Y as X`), renaming callable `x` to
+a fresh name `y` leaves the resolved call graph unchanged except for the
+callable's name: the same nodes with the same fqids, every resolved input,
+output and retained reference identical up to `x ↦ y` in the callable named by
+a stage-output reference.  `RenCallOK` (decidable): `y` names no callable, no
+call, no signature and no type; `x` is not used as a parameter type (known
+finding KF2); no wildcard bindings (KF1); distinct call ids. -/
+theorem rename_callable_graph (p : Program) (x y : String) (ti : TypeInfo)
+    (hwf : WF p = true) (hfresh : FreshFor x y p = true) (hx : (p.find? x).isSome = true)
+    (hok : RenCallOK x y ti (eraseIds p) = true) :
+    deepGraph (ti.renameCallable x y) (eraseIds (renameCallable x y p))
+      = (deepGraph ti (eraseIds p)).map (renNodeCallable x y) := by
+  rw [Proofs.Refactor.rename_callgraph p x y hwf hfresh hx]
+  exact Proofs.RefactorGraph.renameDec_graph x y ti (eraseIds p) hok
+
+/-- non-vacuity: a plain fresh name and the name `U` that collides with an
+existing call id (forced alias); the graph of the id-erased example has 4
+nodes and changes under the renaming. -/
+example : RenCallOK "S" "Z" exTi (eraseIds exProg) = true ∧ RenCallOK "S" "U" exTi (eraseIds exProg) = true
+    ∧ (deepGraph exTi (eraseIds exProg)).length = 4
+    ∧ (deepGraph exTi (eraseIds exProg)).map (renNodeCallable "S" "Z") ≠ deepGraph exTi (eraseIds exProg) := by
+  decide
 
 end Props.C19
